@@ -334,13 +334,23 @@ func tmText(m *xmodel, names []string) string {
 	}
 	sb.WriteString("invalid_token:\n\n:: parser\n\n%input ")
 	sb.WriteString(m.nonterms[m.inputs[0].nt].name + ";\n\n")
-	for _, nt := range m.nonterms {
+	var extends strings.Builder
+	for k, nt := range m.nonterms {
 		sb.WriteString(nt.name + " :\n")
 		rules := []*xe{nt.value}
 		if nt.value.kind == syntax.Choice {
 			rules = nt.value.sub
 		}
-		for i, r := range rules {
+		// every second nonterminal with several rules keeps only its first rule (or all but the last) here, the others
+		// arrive through an 'extend' clause further down: the language must not depend on that spelling
+		base := len(rules)
+		if len(rules) > 1 && (k+len(rules))%2 == 0 {
+			base = 1
+			if k%2 == 1 {
+				base = len(rules) - 1
+			}
+		}
+		for i, r := range rules[:base] {
 			if i > 0 {
 				sb.WriteString("  | ")
 			} else {
@@ -349,7 +359,20 @@ func tmText(m *xmodel, names []string) string {
 			sb.WriteString(tmExpr(r, m, names, true) + "\n")
 		}
 		sb.WriteString(";\n\n")
+		if base < len(rules) {
+			extends.WriteString("extend " + nt.name + " :\n")
+			for i, r := range rules[base:] {
+				if i > 0 {
+					extends.WriteString("  | ")
+				} else {
+					extends.WriteString("    ")
+				}
+				extends.WriteString(tmExpr(r, m, names, true) + "\n")
+			}
+			extends.WriteString(";\n\n")
+		}
 	}
+	sb.WriteString(extends.String())
 	return sb.String()
 }
 
